@@ -362,6 +362,9 @@ pub fn replay_file(v: &Value) -> i32 {
     let prop: &'static str = Box::leak(v["prop"].as_str().unwrap_or("").to_string().into_boxed_str());
     let tier: &'static str = Box::leak(v["tier"].as_str().unwrap_or("quick").to_string().into_boxed_str());
     let d = &v["deep"];
+    if d["mode"] == "dense-roadmap" {
+        return 3; // replayed by re-running the check (see ./check replay)
+    }
     if d["mode"] == "deadline-landing" {
         return crate::props_tree::replay_landing(tier, d);
     }
